@@ -16,6 +16,7 @@ func genCfg(t *rapid.T) sim.Config {
 		SplitSize: rapid.SampledFrom([]int{0, 5, 64, 5, 64, -1}).Draw(t, "split"),
 		WriterBuf: rapid.SampledFrom([]int{0, 1, 40, 1}).Draw(t, "wbuf"),
 		AppendEnc: rapid.IntRange(0, 3).Draw(t, "appendenc") == 0,
+		RawAPI:    rapid.IntRange(0, 4).Draw(t, "rawapi") == 0,
 	}
 }
 
